@@ -324,6 +324,20 @@ func (m *Minter) Mint(spec ReqSpec, s time.Time, skew time.Duration, r *core.Rng
 		tkt.SName = rk.PrincipalName{Type: 1, Names: nil}
 	}
 	tr.TicketIntact = mutateCipher(&tkt.Enc.Cipher, ds, "tkt", r)
+	if hasDefect(ds, "tkt-extra-optionals") != nil {
+		// the ticket is what the KDC sealed; the holder appends, inside the ticket's SEQUENCE, a
+		// plaintext EncTicketPart of his own that carries the optional fields he would like to have
+		// (his address, an early start time, a long renew-till): none of it is authenticated, so
+		// nothing about the verdict changes
+		x := etp
+		early := etp.AuthTime.Add(-time.Hour)
+		late := etp.EndTime.Add(240 * time.Hour)
+		x.StartTime, x.RenewTill = &early, &late
+		x.CAddr = []rk.HostAddress{{Type: 2, Addr: ClientAddrMatch}, {Type: 2, Addr: ClientAddrOther}, {Type: 24, Addr: ClientAddrMatch6}}
+		if n, _, err := der.Parse(x.EncBytes()); err == nil {
+			tkt.Extra = append([]byte{}, n.Content...)
+		}
+	}
 	if hasDefect(ds, "tkt-forged-plain-appended") != nil {
 		// a forger without the service key: the enc-part is noise, and a plaintext EncTicketPart of
 		// his own making (with the session key he seals the authenticator with) is appended to the
